@@ -47,6 +47,10 @@ class Ty:
             return smt.SORTS[self.kind]
         if self.is_heap or self.kind == "none":
             return smt.REF
+        if self.kind == "elem":          # one generic coordinate of an array expression (coordinate view)
+            return smt.ELEM_SORT[0]
+        if self.kind == "ebounds":
+            return smt.REF
         raise Unsupported(f"no SMT sort for type {self}")
 
     def comps(self):
